@@ -333,6 +333,15 @@ class Lifter:
         if isinstance(n, ast.Name):
             if n.id in env:
                 return env[n.id]
+            # a module-level constant (`_HALF_LOG_2PI = np.log(2 * np.pi) / 2`)
+            mod = self.repo.trees.get(self.rel) if self.rel else None
+            if mod is not None and depth < 6:
+                defs = [a for a in mod.body if isinstance(a, ast.Assign)
+                        and len(a.targets) == 1 and isinstance(
+                            a.targets[0], ast.Name)
+                        and a.targets[0].id == n.id]
+                if len(defs) == 1:
+                    return self.ev(defs[0].value, {}, fn, depth + 1, owner)
             raise Unsupported('unbound name `%s` in %s' % (n.id, fn.name))
         if isinstance(n, ast.Attribute):
             s = U(n)
@@ -395,10 +404,18 @@ class Lifter:
         if isinstance(n, ast.IfExp):
             fenv = dict(self.flags)
             for k, v in env.items():
+                if isinstance(v, bool):
+                    fenv[k] = v
                 if v is None:
                     fenv[k + ' is None'] = True
             v = beval(n.test, fenv)
             if v is None:
+                t = U(expand_pred(self.repo, self.cls, n.test))
+                if any(m in t for m in GUARD_MARKS):
+                    # `<fill value> if <outside support> else <value>`: the
+                    # in-support value, the test is recorded as a guard
+                    self.guards.append(Guard(n.test, None, fn))
+                    return self.ev(n.orelse, env, fn, depth, owner)
                 raise Unsupported('conditional expression %s' % U(n)[:50])
             return self.ev(n.body if v else n.orelse, env, fn, depth, owner)
         raise Unsupported('expression %s in %s' % (type(n).__name__, fn.name))
@@ -474,6 +491,13 @@ class Lifter:
         if f == 'len' and n.args:
             v = ev(n.args[0])
             return S(sp.Integer(1))
+        if f == 'isinstance':
+            fenv = dict(self.flags)
+            for k, v in env.items():
+                if isinstance(v, bool):
+                    fenv[k] = v
+            v = beval(n, fenv)
+            return v if isinstance(v, bool) else Opaque('bool')
         if f in ('np.zeros', 'np.zeros_like'):
             return sp.Integer(0)
         if f in ('np.ones', 'np.ones_like'):
@@ -488,6 +512,11 @@ class Lifter:
         if f in ('np.concatenate', 'np.hstack', 'np.vstack') and n.args:
             v = ev(n.args[0])
             return Tup(v)
+        if f in ('np.stack', 'numpy.stack') and n.args and isinstance(
+                n.args[0], (ast.Tuple, ast.List)):
+            # a new axis indexed by the position in the sequence: the same
+            # value as an empty array filled slot by slot
+            return Slots({k: ev(e) for k, e in enumerate(n.args[0].elts)})
         if f in ('int', 'bool', 'str', 'range', 'np.arange', 'np.shape'):
             return Opaque(f)
         if f in ('np.errstate',):
